@@ -93,6 +93,41 @@ func (*engine) Describe() simkit.Description {
 	}
 }
 
+// Finish lists catalogue operations the batch never executed and folds the
+// per-operation counters into one map.
+func (e *engine) Finish(stats, max map[string]int64, cov map[string]interface{}) {
+	per := map[string]int64{}
+	for k, v := range stats {
+		if strings.HasPrefix(k, "op/") {
+			per[k[3:]] = v
+		}
+	}
+	var never []string
+	for _, ent := range catalogue {
+		if per[ent.name] == 0 {
+			never = append(never, ent.name)
+		}
+	}
+	if c, ok := cov["counters"].(map[string]int64); ok {
+		for k := range c {
+			if strings.HasPrefix(k, "op/") {
+				delete(c, k)
+			}
+		}
+	}
+	cov["operations_executed_per_catalogue_entry_min"] = func() int64 {
+		m := int64(-1)
+		for _, ent := range catalogue {
+			if v := per[ent.name]; m < 0 || v < m {
+				m = v
+			}
+		}
+		return m
+	}()
+	cov["catalogue_operations_never_executed"] = never
+	cov["catalogue_operations_executed"] = len(catalogue) - len(never)
+}
+
 // ---------------------------------------------------------------- sites
 
 type siteInfo struct {
@@ -637,6 +672,7 @@ func (e *engine) Run(src *vs.Source, tier string, idx int64) (res *simkit.RunRes
 				ent := catalogue[op.Entry]
 				res.Stats["operations"]++
 				res.Stats["ops_family/"+ent.family]++
+				res.Stats["op/"+ent.name]++
 				res.Stats["callbacks"] += r.CBs
 				res.Stats["fault/callback-abort"] += r.Aborts
 				if r.Retained {
